@@ -117,6 +117,8 @@ func sameLines(a, b string) bool {
 //
 //	first-line-indent-lost  - only the leading whitespace of a value's first line is gone
 //	dot-line-read-as-empty  - a non-first line "." came back as an empty line
+//	trailing-blank-lines-lost - the value came back without the empty lines it ends in (a value ending in n+1 newlines
+//	                          has n empty last lines, written " ."), everything before them is the same
 //	<other>                 - any other difference
 func classify(want, got []control.Paragraph, byteExact bool, other string) []string {
 	keys := map[string]bool{}
@@ -139,7 +141,11 @@ func classify(want, got []control.Paragraph, byteExact bool, other string) []str
 			}
 			la, lb := logical(va), logical(vb)
 			if len(la) != len(lb) {
-				keys[other] = true
+				if trailingBlanksLost(la, lb) {
+					keys["trailing-blank-lines-lost"] = true
+				} else {
+					keys[other] = true
+				}
 				continue
 			}
 			same := true
@@ -167,6 +173,25 @@ func classify(want, got []control.Paragraph, byteExact bool, other string) []str
 	}
 	sort.Strings(out)
 	return out
+}
+
+// got is want without (some of) the empty lines want ends in; a non-first line "." counts as the empty line (see classify)
+func trailingBlanksLost(want, got []string) bool {
+	if len(got) >= len(want) {
+		return false
+	}
+	norm := func(i int, l string) string {
+		if i > 0 && l == "." {
+			return ""
+		}
+		return l
+	}
+	for i, l := range want {
+		if i < len(got) && norm(i, got[i]) != norm(i, l) || i >= len(got) && norm(i, l) != "" {
+			return false
+		}
+	}
+	return true
 }
 
 func show(ps ...control.Paragraph) string {
@@ -627,7 +652,7 @@ func main() {
 
 	out := map[string]interface{}{
 		"bound": fmt.Sprintf("(1) Paragraphs with 1 field (A) over all %d values and with 2 fields (B then A) over all pairs of %d values. Values = line sequences of length 1..4 (pairs: 1..%d) over {\"\", \"a\", \" a\", \".\", \"a \", \" \"} joined by \"\\n\", with and without a trailing \"\\n\", de-duplicated as strings; the %d values whose first line is empty (or only blanks) and that have further lines are outside the domain. Each paragraph goes through 3 cycles of WriteTo + NewParagraphReader.All. ", len(vals), len(pairVals), map[bool]int{true: 4, false: 3}[thorough], skipped) +
-			"Equality after the first read: same Order, same key set, per field the same logical lines, where logical lines = value minus one trailing \"\\n\", split at \"\\n\", each line right-trimmed of space/tab/CR (the reader trims lines on the right). From the second cycle on (input produced by the reader): same Order, values byte-identical up to one trailing \"\\n\". Texts: text3 == text2 byte for byte, text2 == text1 after right-trimming every line, len(text2) <= len(text1). Every written paragraph text must end in \"\\n\" and contain no empty or whitespace-only line. " +
+			"Equality after the first read: same Order, same key set, per field the same logical lines, where logical lines = value minus one trailing \"\\n\", split at \"\\n\", each line right-trimmed of space/tab/CR (the reader trims lines on the right). From the second cycle on (input produced by the reader): same Order, values byte-identical up to one trailing \"\\n\". Texts: text3 == text2 byte for byte, text2 == text1 after right-trimming every line, len(text2) <= len(text1). Every written paragraph text must end in \"\\n\" and contain no empty or whitespace-only line. The value sets include every value ending in 1..3 empty lines (e.g. \"a\\n\\n\", \"a\\n\\n\\n\", \"a\\n a\\n\\n\"; pairs and encoder: 1..2 resp. 1); a read-back that only lacks such empty last lines is reported as trailing-blank-lines-lost. " +
 			fmt.Sprintf("(2) Encoder: sequences of 1, 2 (all ordered pairs) of %d structs S{A string `required:\"true\"`; B string} and 3 (all ordered triples of an evenly spaced subset of %d of them); A over the %d values of 1..2 lines, B over those plus \"\"%s; written with NewEncoder(w).Encode one after another, read back with All and with Unmarshal(&[]S): same number of paragraphs, A always present, B present iff non-empty, same logical lines. ", len(structs), len(triples), len(encVals), map[bool]string{true: "", false: " (quick: every (A,B) grid point with (i+j)%7==0 plus all B==\"\")"}[thorough]) +
 			"(3) C07 model documents (fields 'Name:'+[' '+first], first line in {\"\",\"x\",\"x y \"}, 0..2 continuation lines from {\"  x\",\"\\tz\",\" .\",\" x \"}; LF/CRLF; with/without final newline): M1 = 1 paragraph of 1..2 fields named A,B with a '# c' comment at no/every line position, and with one leading blank line; M2 = 2 one-field paragraphs separated by 1..2 blank lines. Each document accepted by the reader (except those where the reader returns a value that begins with an empty line followed by further lines, e.g. \"A:\\n .\\n  x\": the stated residual outside the domain; counted in rule as model-document-skipped-residual) is written through the encoder (struct{control.Paragraph}) and read again: identical paragraphs (values byte-identical up to one trailing \"\\n\"), and a second write gives the same text.",
 		"rule":                fmt.Sprintf("Nested exhaustive enumeration of the three stated domains; every case runs the real WriteTo/Encoder/ParagraphReader/Unmarshal. evaluations by part: %v. distinct_nontrivial = distinct (part, input) pairs by 64-bit FNV hash; every case is non-trivial (at least one field written and read back; model documents count only when the reader accepted them and returned >= 1 paragraph).", parts),
